@@ -455,6 +455,12 @@ func (p *Process) stopProcess(cancelReadinessFuncs bool) error {
 		return p.doConfiguredStop(p.procConf.ShutDownParams)
 	}
 	err := p.command.Stop(p.procConf.ShutDownParams.Signal, p.procConf.ShutDownParams.ParentOnly)
+	if errors.Is(err, syscall.ESRCH) || errors.Is(err, os.ErrProcessDone) {
+		// the command exited by itself a moment ago: there is nothing left to terminate, which is
+		// what the caller asked for (an update or restart must not fail half-way because of it)
+		log.Debug().Msgf("%s has already exited", p.getName())
+		err = nil
+	}
 	if err != nil {
 		log.Error().Err(err).Msgf("terminating %s failed", p.getName())
 	}
